@@ -660,6 +660,9 @@ func celCorpus() []celCase {
 		{"float64", "value + (0.2 + 0.3) == 0.6"}, {"float64", "value * (this.D / 3.0) > 1.0"}, {"float64", "value - (this.D - 0.5) > 0.0"}, {"float64", "value / (this.D * 2.0) < 1.0"},
 		{"uint8", "value * (7u / 2u) > 5u"}, {"uint", "value - (3u - 1u) > 0u"},
 		{"bool", "value && (this.B || !value)"}, {"bool", "value || (this.B && !value)"}, {"int", "value > 1 && (value < 5 || this.B) && this.X >= 0"},
+		// both operands are the SAME expression: equal for everything except NaN (reference: NaN == NaN is false)
+		{"float64", "value == value"}, {"float64", "value != value"}, {"float64", "value == value || value > 1.0"}, {"int", "value == value"}, {"string", "value == value"},
+		{"float64", "double(value) == double(value)"},
 		{"string", "matches(value, '^a')"}, {"string", "matches(value, '^[a-z]+$')"}, {"string", "contains(value, 'b')"}, {"string", "endsWith(value, 'c')"}, {"string", "matches(value, this.S)"},
 		{"string", "value.matches('^a') || bool(value)"}, {"map[string]int", "has(value.a)"}, {"int", "has(this.X) && value > 0"},
 	}
